@@ -30,10 +30,11 @@ Proof.
   destruct a, b; simpl; split; intros H; try discriminate; try reflexivity;
   try (apply andb_true_iff in H; destruct H as [H1 H2]);
   try (apply Z.eqb_eq in H1); try (apply N.eqb_eq in H1); try (apply ext_eqb_eq in H2);
-  try (apply hf_eqb_eq in H); subst; try reflexivity;
+  try (apply hf_eqb_eq in H); try (apply Nat.eqb_eq in H); subst; try reflexivity;
   try (inversion H; subst; apply andb_true_iff; split;
        [first [apply Z.eqb_refl | apply N.eqb_refl] | now apply ext_eqb_eq]);
-  try (inversion H; subst; now apply hf_eqb_eq).
+  try (inversion H; subst; now apply hf_eqb_eq);
+  try (inversion H; subst; apply Nat.eqb_refl).
 Qed.
 Lemma pname_eqb_refl a : pname_eqb a a = true. Proof. now apply pname_eqb_eq. Qed.
 Lemma rid_eqb_refl a : rid_eqb a a = true. Proof. now apply rid_eqb_eq. Qed.
@@ -279,6 +280,18 @@ Qed.
 
 (* ---- preservation ------------------------------------------------------------------------------ *)
 
+Lemma target_eqb_refl t : target_eqb t t = true.
+Proof. destruct t; simpl; [apply pname_eqb_refl | apply N.eqb_refl]. Qed.
+
+(* the name a new header/footer part gets: the library's name for the kind, or a numbered one *)
+Lemma hf_part_cases footer kd k :
+  hf_part footer kd k = (if footer then PFooter kd else PHeader kd) \/
+  exists m, hf_part footer kd k = (if footer then PFooterN m else PHeaderN m).
+Proof.
+  unfold hf_part. destruct (has_part _ k && used_by_other_kind footer kd _ k); [|now left].
+  right. unfold hf_fresh_name. destruct (first_unused _ 2 _) as [m|a]; [exists m | exists 0]; reflexivity.
+Qed.
+
 Lemma inv_new : Inv new_pkg.
 Proof.
   constructor; unfold covered, names, ids; cbn; intros;
@@ -396,8 +409,8 @@ Proof.
     + destruct footer; [apply (inv_hkinds _ I)|apply set_ref_kinds, (inv_hkinds _ I)].
     + destruct footer; [apply set_ref_kinds, (inv_fkinds _ I)|apply (inv_fkinds _ I)].
     + intros; now left.
-    + intros q Hq _ E. subst q. destruct footer; exact Hq.
-    + intros j e [Hj|Hj]; [destruct footer; discriminate|exact (inv_media _ I _ _ Hj)].
+    + intros q Hq _ E. subst q. destruct (hf_part_cases footer kd k) as [E|[m E]]; rewrite E in Hq; destruct footer; exact Hq.
+    + intros j e [Hj|Hj]; [destruct (hf_part_cases footer kd k) as [E|[m E]]; rewrite E in Hj; destruct footer; discriminate|exact (inv_media _ I _ _ Hj)].
   - (* AddList *)
     destruct (has_part PNumbering k); [inversion H; now subst|].
     eapply add_rel_part_inv; try exact H; try exact I; [repeat split; discriminate|exact (fun x => x)|discriminate].
@@ -564,18 +577,62 @@ Proof. intros I. split; [apply (inv_hkinds _ I)|apply (inv_fkinds _ I)]. Qed.
 
 (* C11: after a header call the reference of that kind resolves to a part with the new payload *)
 Theorem header_latest k kd payload k' : Inv k -> step k (AddHF false kd payload) = Some k' ->
-  exists i, In (kd, i) (hrefs k') /\ In (mkRel i KHeader (TPart (PHeader kd))) (drels k')
-            /\ get_part (PHeader kd) (parts k') = Some payload.
+  exists i p, In (kd, i) (hrefs k') /\ In (mkRel i KHeader (TPart p)) (drels k')
+            /\ get_part p (parts k') = Some payload.
 Proof.
   intros I H. simpl in H. destruct (fresh k) as [i|]; [|discriminate]. inversion H; subst k'. clear H.
-  exists i. cbn [hrefs drels parts]. split; [apply set_ref_has|]. split; [apply in_app_iff; right; now left|apply get_set_same].
+  exists i, (hf_part false kd k). cbn [hrefs drels parts]. split; [apply set_ref_has|]. split; [apply in_app_iff; right; now left|apply get_set_same].
 Qed.
 Theorem footer_latest k kd payload k' : Inv k -> step k (AddHF true kd payload) = Some k' ->
-  exists i, In (kd, i) (frefs k') /\ In (mkRel i KFooter (TPart (PFooter kd))) (drels k')
-            /\ get_part (PFooter kd) (parts k') = Some payload.
+  exists i p, In (kd, i) (frefs k') /\ In (mkRel i KFooter (TPart p)) (drels k')
+            /\ get_part p (parts k') = Some payload.
 Proof.
   intros I H. simpl in H. destruct (fresh k) as [i|]; [|discriminate]. inversion H; subst k'. clear H.
-  exists i. cbn [frefs drels parts]. split; [apply set_ref_has|]. split; [apply in_app_iff; right; now left|apply get_set_same].
+  exists i, (hf_part true kd k). cbn [frefs drels parts]. split; [apply set_ref_has|]. split; [apply in_app_iff; right; now left|apply get_set_same].
+Qed.
+
+(* the numbered name chosen when the library's own name is taken by another kind is the name of no part *)
+Lemma first_unused_RId used n fuel : exists m, first_unused used n fuel = RId m.
+Proof.
+  revert n. induction fuel as [|f IH]; intros n; simpl; [now exists n|].
+  destruct (mem_rid (RId n) used); [apply IH | now exists n].
+Qed.
+
+Lemma hf_fresh_not_in footer k : ~ In (hf_fresh_name footer k) (names k).
+Proof.
+  unfold hf_fresh_name. pose proof (first_unused_free (hfn_ids footer k) 2) as Hfree.
+  destruct (first_unused_RId (hfn_ids footer k) 2 (length (hfn_ids footer k))) as [m Em]. rewrite Em in *.
+  intros Hin. apply Hfree. unfold hfn_ids. apply in_flat_map. unfold names in Hin. apply in_map_iff in Hin.
+  destruct Hin as [q [Eq Hq]]. exists q. split; [exact Hq|]. rewrite Eq. destruct footer; now left.
+Qed.
+
+(* C11, the other kinds: a header call for one kind leaves the part that a reference of ANOTHER kind resolves to as
+   it was - also when the opened document calls that part by the name the library uses for the kind being set, or
+   uses one part for both kinds *)
+Theorem header_other_kinds_kept k kd payload k' kd' j q :
+  Inv k -> step k (AddHF false kd payload) = Some k' ->
+  kd' <> kd -> In (kd', j) (hrefs k) -> In (mkRel j KHeader (TPart q)) (drels k) ->
+  get_part q (parts k') = get_part q (parts k).
+Proof.
+  intros I H Hne Hr Hrel. simpl in H. destruct (fresh k) as [i|]; [|discriminate]. inversion H; subst k'. clear H.
+  cbn [parts]. apply get_set_other. intros E.
+  assert (Hq : In q (names k)).
+  { pose proof (inv_targets _ I _ q Hrel eq_refl) as T. apply saved_names in T. destruct T as [T|T]; [exact T|].
+    exfalso. destruct (hf_part_cases false kd k) as [E'|[m E']]; rewrite E' in E; subst q;
+    repeat (destruct T as [T|T]; [discriminate|]); exact T. }
+  unfold hf_part in E. destruct (has_part (PHeader kd) k && used_by_other_kind false kd (PHeader kd) k) eqn:C.
+  - (* a numbered name: not the name of any part, q is one *)
+    subst q. exact (hf_fresh_not_in false k Hq).
+  - (* the library's name for kd, and q is that part: then the name is taken by another kind - the other branch *)
+    subst q. apply andb_false_iff in C. destruct C as [C|C].
+    + apply has_part_In in Hq. unfold names in *. rewrite Hq in C. discriminate.
+    + unfold used_by_other_kind in C. cbn in C.
+      assert (existsb (fun r => negb (hf_eqb (fst r) kd) &&
+                existsb (fun rl => rid_eqb (r_id rl) (snd r) && target_eqb (r_target rl) (TPart (PHeader kd))) (drels k)) (hrefs k) = true) as T.
+      { apply existsb_exists. exists (kd', j). split; [exact Hr|]. cbn [fst snd]. apply andb_true_iff. split.
+        - apply negb_true_iff. destruct (hf_eqb kd' kd) eqn:Eh; [apply hf_eqb_eq in Eh; contradiction | reflexivity].
+        - apply existsb_exists. eexists. split; [exact Hrel|]. cbn [r_id r_target]. rewrite rid_eqb_refl. cbn [andb]. apply target_eqb_refl. }
+      rewrite T in C. discriminate.
 Qed.
 
 (* ---- C04: what an edit does not touch ---------------------------------------------------------- *)
@@ -584,7 +641,7 @@ Qed.
 Definition targets_of (k : pkg) (o : op) : list pname :=
   match o with
   | AddImage f _ _ => [PMedia (nimg k) (ext_of_fmt f)]
-  | AddHF footer kd _ => [if footer then PFooter kd else PHeader kd]
+  | AddHF footer kd _ => [hf_part footer kd k]
   | AddList => [PNumbering]
   | AddNote e => [if e then PEndnotes else PFootnotes]
   | SetNoteCfg => [PSettings]
@@ -773,23 +830,35 @@ Theorem reach_one_ref_per_kind k ops k' : Inv k -> run k ops = Some k' ->
   NoDup (map fst (hrefs k')) /\ NoDup (map fst (frefs k')).
 Proof. intros I H. apply one_ref_per_kind. eapply run_inv; eassumption. Qed.
 
-(* the payload of a header kind is that of the latest call for that kind: later calls that do not
-   target the header part leave it alone *)
+Lemma hf_part_spec footer kd k :
+  hf_part footer kd k = (if footer then PFooter kd else PHeader kd) \/ hf_part footer kd k = hf_fresh_name footer k.
+Proof. unfold hf_part. destruct (has_part _ k && used_by_other_kind footer kd _ k); [now right | now left]. Qed.
+
+(* the payload of a header kind is that of the latest call for that kind: later calls that are not a header call for
+   that kind leave the part the call wrote alone (whatever name it got) *)
 Theorem header_payload_persists k kd payload k1 ops : forall k2,
   step k (AddHF false kd payload) = Some k1 ->
   (forall o, In o ops -> forall p, o <> AddHF false kd p) ->
-  run k1 ops = Some k2 -> get_part (PHeader kd) (parts k2) = Some payload.
+  run k1 ops = Some k2 -> get_part (hf_part false kd k) (parts k2) = Some payload.
 Proof.
-  intros k2 H1. assert (G : get_part (PHeader kd) (parts k1) = Some payload).
+  intros k2 H1. set (hp := hf_part false kd k) in *.
+  assert (G : get_part hp (parts k1) = Some payload).
   { simpl in H1. destruct (fresh k); [|discriminate]. inversion H1; subst. apply get_set_same. }
+  assert (Hs : match hp with PHeader _ | PHeaderN _ => True | _ => False end).
+  { destruct (hf_part_cases false kd k) as [E|[m E]]; unfold hp; rewrite E; exact Logic.I. }
   clear H1. revert k1 G. induction ops as [|o ops IH]; simpl; intros k1 G Hno H; [inversion H; now subst|].
   destruct (step k1 o) as [k1'|] eqn:E; [|discriminate].
   apply (IH k1'); [|intros o' Ho'; apply Hno; now right|exact H].
   rewrite (untargeted_parts_kept _ _ _ _ E); [exact G|].
-  intros Hin. destruct o; simpl in Hin; try (destruct Hin as [Hin|Hin]; try discriminate; try contradiction);
-  repeat match goal with X : _ \/ _ |- _ => destruct X as [X|X] end; try discriminate; try contradiction.
-  - destruct footer; [discriminate|]. inversion Hin; subst. exact (Hno _ (or_introl eq_refl) payload0 eq_refl).
-  - destruct endnote; discriminate.
+  intros Hin. destruct o as [f b ib | footer kd0 payload0 | | endnote | | | nm | ]; simpl in Hin; try (destruct endnote);
+  repeat (destruct Hin as [Hin|Hin]; [try (rewrite <- Hin in Hs; exact Hs)|]); try contradiction.
+  (* what is left: another header/footer call *)
+  destruct (hf_part_spec footer kd0 k1) as [T|T]; rewrite T in Hin.
+  - destruct footer; [rewrite <- Hin in Hs; exact Hs|].
+    assert (kd0 = kd) as ->.
+    { destruct (hf_part_cases false kd k) as [E'|[m E']]; unfold hp in Hin; rewrite E' in Hin; [now inversion Hin | discriminate]. }
+    exact (Hno _ (or_introl eq_refl) payload0 eq_refl).
+  - apply (hf_fresh_not_in footer k1). rewrite Hin. unfold names. exact (get_part_In _ _ _ G).
 Qed.
 
 (* C04: over a whole history, a part no call targets keeps its payload, and the relationships of
